@@ -295,6 +295,8 @@ func validateFieldContent(msg *Message, checkFieldsHaveValues, checkFieldsOutOfO
 		case inHeader && t.IsHeader():
 		case inHeader && !t.IsHeader():
 			inHeader = false
+			// A message without body fields goes straight from the header to the trailer.
+			inTrailer = t.IsTrailer()
 		case !inHeader && t.IsHeader() && checkFieldsOutOfOrder:
 			return tagSpecifiedOutOfRequiredOrder(t)
 		case t.IsTrailer():
